@@ -1,6 +1,6 @@
 import GB.Generated.Trans
 import GB.Base.TransLemmas
-import GB.C20.Chars
+import GB.C20.Model
 /-
   C20 — SOURCE-TO-LEAN TRANSLATOR TIE for the hex-digit tests of both path-template parsers:
   `isHex(c byte)` (internal/httprule/parse.go) and `isHexDigit(r rune)` (internal/httprule/gwbased/parse.go),
@@ -34,3 +34,92 @@ theorem C20_trans_isHexDigit_nonbyte : ∀ r : Int, (r < 0 ∨ r > 255) → GB.G
   have h2 : ¬ ((65 : Int) ≤ r ∧ r ≤ 70) := by omega
   have h3 : ¬ ((97 : Int) ≤ r ∧ r ≤ 102) := by omega
   simp [h1, h2, h3]
+
+/-! ### `consumePchar` (internal/httprule/parse.go): one step of the model's `stCheckLiteral` -/
+
+/-- the single-byte rows of `consumePchar` (the two `switch` statements with their `fallthrough`s) -/
+def GB.C20.TransTie.rows (c : UInt8) : Bool :=
+  (decide (48 ≤ c) && decide (c ≤ 57)) || (decide (65 ≤ c) && decide (c ≤ 90)) || (decide (97 ≤ c) && decide (c ≤ 122)) ||
+  (c == 45 || c == 46 || c == 95 || c == 126) ||
+  (c == 33 || c == 36 || c == 38 || c == 39 || c == 40 || c == 41 || c == 42 || c == 43 || c == 44 || c == 59 || c == 61) ||
+  (c == 58 || c == 64)
+
+set_option maxRecDepth 100000 in
+theorem GB.C20.TransTie.rows_eq (c : UInt8) : GB.C20.TransTie.rows c = GB.C20.isPcharByte c := by
+  have := byte_forall (fun c => GB.C20.TransTie.rows c == GB.C20.isPcharByte c) (by decide) c
+  simpa using this
+
+/-- `consumePchar` on a non-empty rest, as one expression -/
+theorem GB.C20.TransTie.consumePchar_cons (whole : Bytes) (c : UInt8) (r : Bytes) :
+    GB.Generated.Trans.consumePchar whole (c :: r) =
+      if GB.C20.isPcharByte c then (r, false)
+      else if c != 37 then ([], true)
+      else if (decide (len r < 2) || !GB.C20.isHexDigit (idx r 0)) || !GB.C20.isHexDigit (idx r 1) then ([], true)
+      else (slice r 2 (len r), false) := by
+  have hidx : idx (c :: r) 0 = c := by simp [idx]
+  have hsl : slice (c :: r) 1 (len (c :: r)) = r := by
+    have : ((r.length : Int) + 1).toNat = r.length + 1 := by omega
+    simp [slice, len, this]
+  rw [← GB.C20.TransTie.rows_eq]
+  unfold GB.Generated.Trans.consumePchar GB.C20.TransTie.rows
+  simp only [hidx, hsl, C20_trans_isHex]
+  by_cases h1 : (decide (48 ≤ c) && decide (c ≤ 57)) = true
+  · simp [h1]
+  by_cases h2 : (decide (65 ≤ c) && decide (c ≤ 90)) = true
+  · simp [h1, h2]
+  by_cases h3 : (decide (97 ≤ c) && decide (c ≤ 122)) = true
+  · simp [h1, h2, h3]
+  by_cases h4 : (c == 45 || c == 46 || c == 95 || c == 126) = true
+  · simp [h1, h2, h3, h4]
+  by_cases h5 : (c == 33 || c == 36 || c == 38 || c == 39 || c == 40 || c == 41 || c == 42 || c == 43 || c == 44 || c == 59 || c == 61) = true
+  · simp [h1, h2, h3, h4, h5]
+  by_cases h6 : (c == 58 || c == 64) = true
+  · simp [h1, h2, h3, h4, h5, h6]
+  simp [h1, h2, h3, h4, h5, h6]
+
+theorem GB.C20.TransTie.stCheckLiteral_cons (c : UInt8) (r : Bytes) :
+    GB.C20.stCheckLiteral (c :: r) =
+      if GB.C20.isPcharByte c then GB.C20.stCheckLiteral r
+      else if c != GB.C20.cPct then false
+      else match r with
+        | h1 :: h2 :: r' => GB.C20.isHexDigit h1 && GB.C20.isHexDigit h2 && GB.C20.stCheckLiteral r'
+        | _ => false := by
+  cases r with
+  | nil => first | rfl | simp [GB.C20.stCheckLiteral]
+  | cons h1 t =>
+    cases t with
+    | nil => first | rfl | simp [GB.C20.stCheckLiteral]
+    | cons h2 r' => first | rfl | simp [GB.C20.stCheckLiteral]
+
+/-- internal/httprule `consumePchar`: the model's `stCheckLiteral` is `checkLiteral`'s loop
+    `for s != "" { s, err = consumePchar(original, s); if err != nil { return err } }` over the regenerated
+    `consumePchar` — one unfolding, for every non-empty input -/
+theorem C20_trans_consumePchar : ∀ (whole : GB.Bytes) (c : UInt8) (r : GB.Bytes),
+    GB.C20.stCheckLiteral (c :: r) =
+      (match GB.Generated.Trans.consumePchar whole (c :: r) with
+       | (rest, false) => GB.C20.stCheckLiteral rest
+       | (_, true) => false) := by
+  intro whole c r
+  rw [GB.C20.TransTie.consumePchar_cons]
+  rw [GB.C20.TransTie.stCheckLiteral_cons]
+  by_cases hp : GB.C20.isPcharByte c = true
+  · simp [hp]
+  · have hp' : GB.C20.isPcharByte c = false := by simpa using hp
+    by_cases h37 : c = 37
+    · subst h37
+      cases r with
+      | nil => simp [hp', GB.C20.cPct, len]
+      | cons h1 t =>
+        cases t with
+        | nil => simp [hp', GB.C20.cPct, len]
+        | cons h2 r' =>
+          have hl : ¬ (len (h1 :: h2 :: r') < 2) := by simp only [len, Int.ofNat_eq_natCast, List.length_cons]; omega
+          have i0 : idx (h1 :: h2 :: r') 0 = h1 := by simp [idx]
+          have i1 : idx (h1 :: h2 :: r') 1 = h2 := by simp [idx]
+          have sl : slice (h1 :: h2 :: r') 2 (len (h1 :: h2 :: r')) = r' := by
+            have : ((r'.length : Int) + 1 + 1).toNat = r'.length + 2 := by omega
+            simp [slice, len, this]
+          simp only [hp', GB.C20.cPct, hl, i0, i1, sl, bne_self_eq_false, Bool.false_eq_true, if_false, decide_false, Bool.false_or]
+          cases GB.C20.isHexDigit h1 <;> cases GB.C20.isHexDigit h2 <;> simp
+    · have : (c != 37) = true := by simp [h37]
+      simp [hp', this, GB.C20.cPct]
